@@ -1100,7 +1100,20 @@ def op_split(cx):
                 continue
             cx.fail("face_not_original", "a face of a split component is not a face of the source (%s)" % how, None, opt)
             return _finish(cx, True)
-        if len(src) > 1 and not np.all(np.diff(src) > 0):
+        order_src = np.asarray(src)
+        if only_wt and len(order_src) > 1:
+            # only_watertight=True runs fill_holes (even with repair=False, util.submesh), which
+            # APPENDS new faces; their inferred ids are not survivors' ids, so the order claim
+            # is judged on the strictly increasing prefix followed by an appended tail only
+            d = np.nonzero(np.diff(order_src) <= 0)[0]
+            if len(d):
+                tail = order_src[d[0] + 1:]
+                # a genuine mis-ordering of survivors shows up as a second descent inside the
+                # tail-free part; an appended block is at the very end and short
+                if len(tail) <= max(2, len(order_src) // 4):
+                    cx.run.count("split_order_appended_tail_ignored")
+                    order_src = order_src[: d[0] + 1]
+        if len(order_src) > 1 and not np.all(np.diff(order_src) > 0):
             cx.fail("face_order",
                     "faces inside a split component are not in their original relative order",
                     {"ids": src[:40]}, opt)
